@@ -122,6 +122,15 @@ def gen_dict(r, kind):
         for row in A:
             row[b] = s * row[a]
         return A, cplx, False
+    if kind == "neartie":
+        # column b = (1 + 2^-20) * (+-column a): scores differ by 1e-6 relative -- NOT a tie
+        A, cplx, _ = gen_dict(r, "int")
+        n = len(A[0])
+        a, b = r.sample(range(n), 2)
+        s = r.choice([1, -1]) * (1.0 + 2.0 ** -20)
+        for row in A:
+            row[b] = s * row[a]
+        return [[float(v) for v in row] for row in A], False, False
     raise ValueError(kind)
 
 
@@ -148,20 +157,27 @@ def gen_case(r, kind):
         y = np.zeros(m, dtype=dt)
     mp = r.random() < 0.3
     nc = r.random() < 0.5
+    if kind == "neartie":
+        nc = r.random() < 0.2
+    # physical scale of the data: exact powers of two (y, x0 and sigma scaled alike)
+    ysc = r.choice([1.0, 1.0, 1.0, 2.0 ** -30, 2.0 ** -40, 2.0 ** 20])
+    y = y * ysc
+    if x0 is not None:
+        x0 = [v * ysc for v in x0]
     big = max(float(np.sum(np.abs(An[:, j]) ** 2)) for j in range(n))
     nouter = r.choice([0, 1, 2, 3, 4, 6, 8])
     if mp and big > 2:
         nouter = min(nouter, 5)
-    sigma = r.choice([0.0, 1e-10, 1e-4, 0.5, 2.0, 5.0])
+    sigma = r.choice([0.0, 1e-10, 1e-4, 0.5, 2.0, 5.0]) * ysc
     expect = None
     if ortho and ykind == "sparse":
         nouter = max(nouter, k) if r.random() < 0.8 else nouter
-        sigma = r.choice([1e-10, 1e-6, 0.5])
+        sigma = r.choice([1e-10, 1e-6, 0.5]) * ysc
         if nouter >= k:
             expect = (x0, k)
     return {"kind": kind, "ykind": ykind, "A": A, "y": [complex(v) if cplx else float(v.real) for v in y], "cplx": cplx,
             "ortho": ortho, "mp": mp, "nc": nc, "nouter": nouter, "sigma": sigma, "niter_inner": 0 if mp else 100,
-            "free": r.random() < 0.4, "npseed": r.randrange(2 ** 31), "expect": expect}
+            "yscale": ysc, "free": r.random() < 0.4, "npseed": r.randrange(2 ** 31), "expect": expect}
 
 
 # ------------------------------------------------------------------ running the implementation
@@ -282,7 +298,10 @@ def clause_failures(c):
     out = []
     x, cost, K = c["x"], c["cost"], c["iiter"]
     cols = c["trace"][-1] if c["trace"] else []
-    sc_all = 1 + float(np.sum(np.abs(y) ** 2) + np.sum(np.abs(A) ** 2))
+    ny2 = float(np.sum(np.abs(y) ** 2))
+    nA2 = float(np.sum(np.abs(A) ** 2))
+    ny = ny2 ** 0.5
+    sc_all = (ny2 * nA2) ** 0.5          # every tolerance is relative to the scale of the data
     tol = 1e-6
     if len(cost) != K + 1 or len(c["trace"]) != K:
         out.append((11, "len(cost)=%d, iiter=%d" % (len(cost), K), {}))
@@ -299,17 +318,17 @@ def clause_failures(c):
             xe = np.linalg.lstsq(A[:, cols], y, rcond=None)[0]
             e = np.abs(x[cols] - xe)
             p = int(np.argmax(e))
-            if e[p] > tol * (1 + abs(xe[p])):
+            if e[p] > tol * (ny + abs(xe[p])):
                 out.append((5, "x[%d]=%s, least squares on cols %s gives %s" % (cols[p], x[cols[p]], cols, xe[p]), {"column": cols[p]}))
     for k in range(min(len(cost), K + 1)):
         xk = np.zeros(A.shape[1], dtype=A.dtype) if k == 0 else c["xsteps"][k - 1]
         tr = float(np.linalg.norm(y - A @ xk))
-        if abs(cost[k] ** 2 - tr ** 2) > tol * (1 + tr ** 2):
+        if abs(cost[k] ** 2 - tr ** 2) > tol * (ny2 + tr ** 2):
             out.append((3, "cost[%d]=%.12g but ||y - A x_%d|| = %.12g" % (k, cost[k], k, tr), {"step": k}))
             break
     if len(cost) == K + 1 and len(x) == A.shape[1] and not any(f[0] == 3 for f in out):
         tr = float(np.linalg.norm(y - A @ x))
-        if abs(cost[K] ** 2 - tr ** 2) > tol * (1 + tr ** 2):
+        if abs(cost[K] ** 2 - tr ** 2) > tol * (ny2 + tr ** 2):
             out.append((3, "cost[%d]=%.12g but the returned x has ||y - A x|| = %.12g" % (K, cost[K], tr), {"step": K}))
     for k in range(K):
         xk = np.zeros(A.shape[1], dtype=A.dtype) if k == 0 else c["xsteps"][k - 1]
@@ -317,13 +336,14 @@ def clause_failures(c):
         if c["nc"]:
             s2 = s2 / np.sum(np.abs(A) ** 2, axis=0)
         i = c["choices"][k]
-        if s2.max() - s2[i] > tol * (1 + s2.max()):
+        fl = 1e-10 * ny2 * nA2 / (float(np.min(np.sum(np.abs(A) ** 2, axis=0))) if c["nc"] else 1.0)
+        if s2.max() - s2[i] > tol * s2.max() + fl:
             out.append((1, "step %d selected column %d with score^2 %.6g, maximum is %.6g at column %d"
                         % (k + 1, i, s2[i], s2.max(), int(np.argmax(s2))), {"step": k + 1}))
             break
     small = bool(np.all(np.sum(np.abs(A) ** 2, axis=0) <= 2))
     for k in range(len(cost) - 1):
-        if cost[k + 1] > cost[k] + tol * (1 + cost[k]):
+        if cost[k + 1] > cost[k] + tol * (cost[0] + cost[k]):
             if not c["mp"] or small:
                 out.append((7, "cost[%d]=%.9g > cost[%d]=%.9g" % (k + 1, cost[k + 1], k, cost[k]), {"step": k + 1}))
             elif c["nc"]:
@@ -335,7 +355,7 @@ def clause_failures(c):
         out.append((10, "iiter=%d niter_outer=%d sigma=%g cost=%s" % (K, c["nouter"], c["sigma"], cost), {}))
     if c["expect"]:
         x0 = np.array(c["expect"][0], dtype=A.dtype)
-        if K != c["expect"][1] or np.abs(x - x0).max() > tol * (1 + np.abs(x0).max()):
+        if K != c["expect"][1] or np.abs(x - x0).max() > tol * (ny + np.abs(x0).max()):
             out.append((12, "orthonormal dictionary, %d-sparse x0=%s: returned x=%s after %d steps" % (c["expect"][1], list(x0), list(x), K), {}))
     if not c["consistent"]:
         out.append((14, "solve() and setup/step driving give different cost or x under the same numpy seed", {}))
@@ -397,7 +417,7 @@ def replay(rp):
 
 
 # ------------------------------------------------------------------ main
-KIND_W = [("int", 5), ("gauss", 3), ("perm", 2), ("cperm", 1), ("had", 2), ("unit2", 3), ("ties", 3), ("ctie", 1)]
+KIND_W = [("int", 5), ("gauss", 3), ("perm", 2), ("cperm", 1), ("had", 2), ("unit2", 3), ("ties", 3), ("ctie", 1), ("neartie", 2)]
 
 
 def main(tier):
@@ -433,7 +453,7 @@ def main(tier):
             canary = dict(c)
             canary["id"] = CANARY
             xx = np.array(c["x"]).copy()
-            xx[c["trace"][-1][0]] += 1
+            xx[c["trace"][-1][0]] += float(np.linalg.norm(np.array(c["y"])))      # corruption at the scale of the data
             canary["x"] = xx
             break
     if canary is None:
@@ -486,7 +506,7 @@ def main(tier):
     repeats = 0
     for c in cases:
         for k, sc in enumerate(c["scores"]):
-            if np.sum(np.abs(sc - sc.max()) <= 1e-9 * (1 + sc.max())) > 1:
+            if np.sum(np.abs(sc - sc.max()) <= 1e-9 * sc.max()) > 1:
                 tie_steps += 1
             if k > 0 and c["trace"][k] == c["trace"][k - 1]:
                 repeats += 1
@@ -498,9 +518,11 @@ def main(tier):
         rule="dictionaries: small-integer real, Gaussian-integer complex, signed (complex-unit) permutations, Hadamard/2 blocks "
              "(orthonormal), {0,+-1} columns of squared norm <= 2, dictionaries with duplicated/negated columns (exact ties); "
              "y = A x0 with k-sparse integer x0, dense integer y, or 0; niter_outer in {0..8}, niter_inner in {0 (MP), 100}, "
-             "sigma in {0,1e-10,1e-6,1e-4,.5,2,5}, normalizecols on/off, explicit MatrixMult or matrix-free operator; numpy global "
+             "sigma in {0,1e-10,1e-6,1e-4,.5,2,5}; y, x0 and sigma multiplied by an exact power of two in {1, 2^-30, 2^-40, 2^20} "
+             "(all tolerances are relative to ||y||); near-tie dictionaries (column b = (1+2^-20) column a); normalizecols on/off, explicit MatrixMult or matrix-free operator; numpy global "
              "seed fixed per case. non-trivial = distinct (A, y, options) with at least one step and non-zero returned x",
         kinds={k: sum(1 for c in cases if c["kind"] == k) for k, _ in KIND_W},
+        yscale_hist={str(v): sum(1 for c in cases if c["yscale"] == v) for v in (1.0, 2.0 ** -30, 2.0 ** -40, 2.0 ** 20)},
         complex_cases=sum(1 for c in cases if c["cplx"]), mp_cases=sum(1 for c in cases if c["mp"]),
         normalizecols_cases=sum(1 for c in cases if c["nc"]), matrix_free_cases=sum(1 for c in cases if c["free"]),
         orthonormal_recovery_cases=sum(1 for c in cases if c["expect"]), steps_total=sum(c["iiter"] for c in cases),
